@@ -5,6 +5,7 @@ import (
 	"compress/gzip"
 	"fmt"
 	"io"
+	"runtime"
 	"sort"
 	"strings"
 	"testing"
@@ -318,7 +319,14 @@ func checkBytesCase(c BytesCase, r *Recorder) error {
 	if err != nil {
 		return errf("[%s] %v", c.Note, err)
 	}
+	// (between the loads the heap is made to look different - objects of the sizes a loader
+	// allocates are created and kept - so that an outcome which carries an address, a map order or
+	// a pool's state has a chance to differ)
+	var keep []interface{}
 	for k := 0; k < 6; k++ {
+		for i := 0; i < 3+5*k; i++ {
+			keep = append(keep, io.NewSectionReader(bytes.NewReader(nil), 0, int64(i)), make([]byte, 16<<uint(i%6)), &struct{ a, b, c, d, e, f, g uintptr }{})
+		}
 		again, err := debOutcome(c.Raw, c.Eager)
 		if err != nil {
 			return errf("[%s] %v", c.Note, err)
@@ -327,6 +335,7 @@ func checkBytesCase(c BytesCase, r *Recorder) error {
 			return errf("[%s] loading the same bytes again gives a different outcome: %q vs %q", c.Note, first, again)
 		}
 	}
+	runtime.KeepAlive(keep)
 	return nil
 }
 
@@ -365,7 +374,7 @@ func genCorruptArchive(t *rapid.T) BytesCase {
 			ms = append(ms, genArMember(t, "m"))
 		}
 	}
-	op := rapid.SampledFrom([]string{"column", "column", "column", "columns", "longnames", "tarlevel", "magic", "truncate", "duplicate", "reorder", "decoy", "padding", "globalmagic", "none"}).Draw(t, "op")
+	op := rapid.SampledFrom([]string{"column", "column", "column", "columns", "longnames", "tarlevel", "magic", "truncate", "duplicate", "reorder", "decoy", "unopenable", "padding", "globalmagic", "none"}).Draw(t, "op")
 	note := op
 	switch op {
 	case "duplicate":
@@ -378,6 +387,37 @@ func genCorruptArchive(t *rapid.T) BytesCase {
 		ms = append(ms[:j], append([]ArMember{dup}, ms[j:]...)...)
 	case "reorder":
 		ms = rapid.Permutation(ms).Draw(t, "perm")
+	case "unopenable":
+		// the control or the data member is there but cannot be opened: a name that is no tarball,
+		// or a compressed member whose stream header is missing or damaged. The complaint is the
+		// same complaint every time
+		for i := range ms {
+			base := ""
+			switch {
+			case strings.HasPrefix(ms[i].Name, "control."):
+				base = "control"
+			case strings.HasPrefix(ms[i].Name, "data."):
+				base = "data"
+			}
+			if base == "" || rapid.Bool().Draw(t, "unopenSkip") {
+				continue
+			}
+			switch rapid.IntRange(0, 4).Draw(t, "unopenHow") {
+			case 0:
+				ms[i].Name = base + rapid.SampledFrom([]string{".txt", ".bin", ".", ".tar.foo"}).Draw(t, "unopenExt")
+			case 1:
+				ms[i].Name, ms[i].Data = base+".tar.gz", []byte{}
+			case 2:
+				ms[i].Name, ms[i].Data = base+".tar.gz", []byte("not gzip at all")
+			case 3:
+				ms[i].Name = base + ".tar.gz"
+				if len(ms[i].Data) > 2 {
+					ms[i].Data = append([]byte{0x1f, 0x8c}, ms[i].Data[2:]...)
+				}
+			default:
+				ms[i].Name, ms[i].Data = base+".tar.bz2", []byte("BZx")
+			}
+		}
 	case "decoy":
 		i := rapid.IntRange(0, len(ms)-1).Draw(t, "i")
 		j := rapid.IntRange(0, len(ms)).Draw(t, "j")
@@ -583,7 +623,7 @@ func genCorruptArchive(t *rapid.T) BytesCase {
 
 var specC15Corrupt = Register(&Spec[BytesCase]{
 	Prop: "C15", Name: "corrupt",
-	Rule:  "structured corruption of valid artefacts (C13 archives and C14 packages with stored/gzip members): one header column (name, mtime, uid, gid, mode, size, magic) of one member overwritten with negative, '+'-signed, huge, blank, non-numeric, NUL, hex or overflowing text; 2..4 numeric columns of one header made non-numeric at once; a member renamed '//' and later ones '/<offset>' (GNU long-name table and references); the control member replaced by a stored tar whose './control' entry is a GNU sparse file of 2^20 / 2^40 / 2^62 made-up bytes, a directory, a symlink, or cut short, or which carries - as ./control or next to it - a PAX-style sparse entry of 2^40 made-up bytes, or a regular entry (./control or the file in front of it) whose base-256 size field claims 2^55 or 2^62 bytes, or replaced by a few KiB of gzip whose './control' is one field with 500 000 to 800 000 continuation lines (it has to be read in a time that does not grow with the square of that), or whose Depends is one token of 600 000 to 1 000 000 bytes, or whose './control' comes wrapped in a clearsign frame (with / without Hash: header, empty line, signature, END line); one or both header magic bytes changed; truncation at a generated offset; a member duplicated (same or changed content), members reordered, a decoy control.*/data.* member with another extension (optionally a tar with 'Package: evil') inserted; a padding byte added or removed; a global magic byte flipped. Oracle: no panic; the Next() loop ends in io.EOF or an error within len/60+2 steps; every returned member sits behind a header ending 0x60 0x0A, has Size >= 0 and a reader delivering exactly Size bytes; deb.Load stays within a read budget and returns within 20 s; seven iterations / loads of the same bytes, and one through an io.SectionReader window of a larger buffer with a valid archive behind it, give the same outcome (the same error text, or the same extensions, control identity and member index). Non-trivial: >= 1 member returned or a first header parsed; distinct by bytes.",
+	Rule:  "structured corruption of valid artefacts (C13 archives and C14 packages with stored/gzip members): one header column (name, mtime, uid, gid, mode, size, magic) of one member overwritten with negative, '+'-signed, huge, blank, non-numeric, NUL, hex or overflowing text; 2..4 numeric columns of one header made non-numeric at once; a member renamed '//' and later ones '/<offset>' (GNU long-name table and references); the control member replaced by a stored tar whose './control' entry is a GNU sparse file of 2^20 / 2^40 / 2^62 made-up bytes, a directory, a symlink, or cut short, or which carries - as ./control or next to it - a PAX-style sparse entry of 2^40 made-up bytes, or a regular entry (./control or the file in front of it) whose base-256 size field claims 2^55 or 2^62 bytes, or replaced by a few KiB of gzip whose './control' is one field with 500 000 to 800 000 continuation lines (it has to be read in a time that does not grow with the square of that), or whose Depends is one token of 600 000 to 1 000 000 bytes, or whose './control' comes wrapped in a clearsign frame (with / without Hash: header, empty line, signature, END line); one or both header magic bytes changed; truncation at a generated offset; a member duplicated (same or changed content), members reordered, a decoy control.*/data.* member with another extension (optionally a tar with 'Package: evil') inserted; the control or data member made unopenable (renamed to .txt / .bin, emptied, its gzip header damaged); a padding byte added or removed; a global magic byte flipped. Oracle: no panic; the Next() loop ends in io.EOF or an error within len/60+2 steps; every returned member sits behind a header ending 0x60 0x0A, has Size >= 0 and a reader delivering exactly Size bytes; deb.Load stays within a read budget and returns within 20 s; seven iterations / loads of the same bytes, and one through an io.SectionReader window of a larger buffer with a valid archive behind it, give the same outcome (the same error text, or the same extensions, control identity and member index). Non-trivial: >= 1 member returned or a first header parsed; distinct by bytes.",
 	Check: checkBytesCase,
 })
 
